@@ -73,45 +73,70 @@ fn c07_residency_entry_invalid_type_byte() {
 }
 
 // ---- load path: ResidencyPage::from_bytes -------------------------------------------------------
-// @harness prop=C07 tier=quick timeout=900 role=residency-page-load-path
-// @bounds one-entry page written by the real writer, entry fields symbolic; the entry corrupted at a symbolic byte of its hashed range 4..37, new value symbolic != old
-// @encodes cascette_client_storage::kmt::key_state::ResidencyPage::from_bytes, cascette_client_storage::kmt::key_state::ResidencyPage::to_bytes, cascette_client_storage::kmt::key_state::ResidencyPage::push, cascette_client_storage::kmt::key_state::ResidencyEntry::from_bytes
-// @assumes hashlittle is an ideal hash
-// @catches (known finding) load path that parses residency entries without validating their hash guard
-#[kani::proof]
-#[kani::unwind(27)]
-#[kani::stub(cascette_crypto::jenkins::hashlittle, ideal::hashlittle_ideal31)]
-fn c07_residency_page_load_n1() {
-    let ekey: [u8; 16] = kani::any();
-    let span = any_span();
-    let tk: u8 = kani::any();
-    kani::assume(tk < 5);
-    let q: usize = kani::any();
-    kani::assume(q >= 4 && q < 37);
-    let v: u8 = kani::any();
-    let mut page = ResidencyPage::new();
-    assert!(page.push(ResidencyEntry::new(ekey, span, type_of(tk))));
-    let mut bytes = page.to_bytes();
-    let mut eb = [0u8; RESIDENCY_ENTRY_SIZE];
-    eb.copy_from_slice(&bytes[..RESIDENCY_ENTRY_SIZE]);
-    kani::assume(v != eb[q]);
-    eb[q] = v;
-    bytes[..RESIDENCY_ENTRY_SIZE].copy_from_slice(&eb);
-    kani::cover!(q == 4, "first ekey byte corrupted");
-    let loaded = ResidencyPage::from_bytes(&bytes);
-    if let Some(pg) = &loaded {
-        if pg.len() > 0 {
-            let got = &pg.entries()[0];
-            let same = got.ekey == ekey && got.span == span && got.update_type == type_of(tk);
-            assert!(
-                same,
-                "KF: ResidencyPage::from_bytes hands on an entry whose guarded bytes were corrupted (hash guard never checked on load)"
-            );
+// Contract (since /repo 69dcb3e): the corrupted slot and every later slot are absent, earlier entries intact.
+macro_rules! residency_page_load {
+    ($name:ident, $n:expr, $k:expr) => {
+        #[kani::proof]
+        #[kani::unwind(27)]
+        #[kani::stub(cascette_crypto::jenkins::hashlittle, ideal::hashlittle_ideal31)]
+        fn $name() {
+            const N: usize = $n;
+            const K: usize = $k;
+            let ekeys: [[u8; 16]; N] = kani::any();
+            let spans: [[i32; 4]; N] = kani::any();
+            let tks: [u8; N] = kani::any();
+            let q: usize = kani::any();
+            kani::assume(q < 37);
+            let v: u8 = kani::any();
+            let mut page = ResidencyPage::new();
+            let mut i = 0;
+            while i < N {
+                kani::assume(tks[i] < 5);
+                let sp = ResidencySpan { offset: spans[i][0], length: spans[i][1], reserved1: spans[i][2], reserved2: spans[i][3] };
+                assert!(page.push(ResidencyEntry::new(ekeys[i], sp, type_of(tks[i]))));
+                i += 1;
+            }
+            let mut bytes = page.to_bytes();
+            let mut eb = [0u8; RESIDENCY_ENTRY_SIZE];
+            eb.copy_from_slice(&bytes[K * RESIDENCY_ENTRY_SIZE..(K + 1) * RESIDENCY_ENTRY_SIZE]);
+            kani::cover!(q == 4, "first ekey byte corrupted");
+            kani::cover!(q == 36 && v == 0x55, "update-type byte overwritten with an undefined value");
+            kani::cover!(q == 3, "guard field corrupted");
+            kani::assume(v != eb[q]);
+            eb[q] = v;
+            bytes[K * RESIDENCY_ENTRY_SIZE..(K + 1) * RESIDENCY_ENTRY_SIZE].copy_from_slice(&eb);
+            let loaded = ResidencyPage::from_bytes(&bytes);
+            match &loaded {
+                None => assert!(K == 0, "entries in front of the corrupted slot must still be loaded"),
+                Some(pg) => {
+                    assert!(K > 0, "a page whose first entry is corrupted must not load");
+                    assert!(pg.len() == K, "the corrupted entry and every later slot of the page must be absent");
+                    let mut j = 0;
+                    while j < K {
+                        let got = pg.entries()[j];
+                        let sp = ResidencySpan { offset: spans[j][0], length: spans[j][1], reserved1: spans[j][2], reserved2: spans[j][3] };
+                        assert!(
+                            got.ekey == ekeys[j] && got.span == sp && got.update_type == type_of(tks[j]) && got.validate_hash_guard(),
+                            "an entry in front of the corrupted slot was altered or dropped"
+                        );
+                        j += 1;
+                    }
+                }
+            }
+            std::mem::forget(loaded);
+            std::mem::forget(page);
         }
-    }
-    std::mem::forget(loaded);
-    std::mem::forget(page);
+    };
 }
+// @family prop=C07 tier=quick timeout=900 role=residency-page-load-path
+// @bounds page with N entries written by the real writer (name: n<N>[_k<K>]; c07_residency_page_load_n1 = N 1, K 0), ekey / span / 5 update types symbolic; entry K corrupted at a symbolic byte p in 0..=36 (guard field and hashed range, any new value != old incl. undefined update-type bytes)
+// @encodes cascette_client_storage::kmt::key_state::ResidencyPage::from_bytes, cascette_client_storage::kmt::key_state::ResidencyPage::to_bytes, cascette_client_storage::kmt::key_state::ResidencyPage::push, cascette_client_storage::kmt::key_state::ResidencyEntry::from_bytes, cascette_client_storage::kmt::key_state::ResidencyEntry::compute_hash_guard
+// @assumes hashlittle is an ideal hash (31 surviving bits injective)
+// @catches load path without guard validation, guard recomputed over re-serialised fields, later slots handed on after a bad one, good entries in front dropped
+residency_page_load!(c07_residency_page_load_n1, 1, 0);
+residency_page_load!(c07_residency_page_load_n2_k0, 2, 0);
+residency_page_load!(c07_residency_page_load_n2_k1, 2, 1);
+// @end
 
 fn ref_hash31(data: &[u8], seed: u32) -> u32 {
     if cfg!(vreplay) {
